@@ -173,6 +173,47 @@ func runCancelGate(p *core.Program, r *core.Report) {
 			}
 			return false
 		}
+		// the frame whose context is replaced must be a private copy
+		base := fa.X
+		// fm may live in a cell (it is captured by the waiter goroutine):
+		// take the store that reaches this load within the block
+		if addr, ok := core.IsLoad(base); ok {
+			if cell, ok := addr.(*ssa.Alloc); ok {
+				ld := base.(ssa.Instruction)
+				instrs := ld.Block().Instrs
+				for i := len(instrs) - 1; i >= 0; i-- {
+					if instrs[i] == ld {
+						for j := i - 1; j >= 0; j-- {
+							if st2, ok := instrs[j].(*ssa.Store); ok && st2.Addr == ssa.Value(cell) {
+								base = st2.Val
+								break
+							}
+						}
+						break
+					}
+				}
+			}
+		}
+		fresh := false
+		if c, ok := base.(*ssa.Call); ok && isFrameMethod(c, "Fork") {
+			fresh = true
+		}
+		if phi, ok := base.(*ssa.Phi); ok {
+			fresh = true
+			for _, e := range phi.Edges {
+				if c, ok := e.(*ssa.Call); !ok || !isFrameMethod(c, "Fork") {
+					fresh = false
+				}
+			}
+		}
+		if _, ok := base.(*ssa.Alloc); ok {
+			fresh = true
+		}
+		if fresh {
+			r.OK("CANCEL-GATE", "(*eval.pipelineOp).exec context replaced on a private copy of the frame", p.InsPos(ins), "the frame written to is the result of fm.Fork()")
+		} else {
+			r.Bad("CANCEL-GATE", "(*eval.pipelineOp).exec context replaced on a private copy of the frame", p.InsPos(ins), "the caller's frame has its context replaced by an uncancellable one: after a background job has been started, the rest of the enclosing chunk no longer sees interrupts")
+		}
 		if dominatedByCondEdge(exec, isBg, true, ins.Block()) {
 			r.OK("CANCEL-GATE", "(*eval.pipelineOp).exec context replaced only for background jobs", p.InsPos(ins), "the store to Frame.ctx is on the true edge of op.bg")
 		} else {
@@ -713,6 +754,43 @@ func runC20(p *core.Program, r *core.Report) {
 					r.Bad("ERR-AGG", "eval.peach shared error written under its mutex", p.InsPos(st), "concurrent callbacks write the shared error without the mutex: exceptions can be lost (and the race detector fires)")
 				}
 			})
+		}
+	}
+	if r.CountRule("ERR-AGG") == 0 {
+		// no mutex-protected store found: accept a compare-and-swap retry
+		// loop, reject anything else
+		hasCAS, hasSwapStore := false, false
+		var where ssa.Instruction
+		for _, a := range peach.AnonFuncs {
+			for _, w := range a.AnonFuncs {
+				core.Instrs(w, func(ins ssa.Instruction) {
+					c, ok := ins.(ssa.CallInstruction)
+					if !ok {
+						return
+					}
+					callee := c.Common().StaticCallee()
+					if callee == nil || core.PkgPathOf(callee) != "sync/atomic" {
+						return
+					}
+					switch core.Origin(callee).Name() {
+					case "CompareAndSwap", "CompareAndSwapPointer":
+						hasCAS = true
+					case "Swap", "Store", "SwapPointer", "StorePointer":
+						if strings.Contains(callee.String(), "error") || strings.Contains(callee.String(), "Pointer") {
+							hasSwapStore = true
+							where = ins
+						}
+					}
+				})
+			}
+		}
+		switch {
+		case hasCAS:
+			r.OK("ERR-AGG", "eval.peach shared error aggregated with a compare-and-swap loop", p.Pos(peach.Pos()), "CAS retry idiom")
+		case hasSwapStore:
+			r.Bad("ERR-AGG", "eval.peach shared error aggregated atomically", p.InsPos(where), "the shared error is updated with separate atomic Swap/Store operations, which is not an atomic read-modify-write: when three or more callbacks fail at the same time a later Store overwrites a merged error and exceptions are lost")
+		default:
+			r.Bad("ERR-AGG", "eval.peach shared error aggregated atomically", p.Pos(peach.Pos()), "cannot find where peach's workers record a callback exception (neither a store under a mutex nor a compare-and-swap loop)")
 		}
 	}
 	for _, top := range []*ssa.Function{peach, rp} {
